@@ -110,6 +110,127 @@ def run_s(job, acc, monitors=MONITORS):
                                 for k, v in list(p.applies.items())[:6]}})
 
 
+# ----------------------------------------------------------------------
+# V-family: the FORM of the returned update (explicit-updater form with
+# falsy values, arrays passed through from the state, a default array
+# shared by two variables) must not change what is applied, or when
+
+def v_world(ts_slow, ts_fast, script, order):
+    import numpy as np
+    arr = lambda *x: np.array(x, dtype=float)  # noqa
+    shared_default = arr(0, 0)
+    slow = {'cls': 'P', 'pid': 'slow', 'ts': ts_slow,
+            'log_states': False, 'log_return_copy': True,
+            'schema': {'pool': {'level': {'_default': arr(1, 2),
+                                          '_emit': True}},
+                       'sink': {'total': {'_default': arr(0, 0),
+                                          '_emit': True}}},
+            # the update IS the array object the process was shown
+            'update': {'sink': {'total': {'$stateref': ('pool', 'level')}}}}
+    fast = {'cls': 'P', 'pid': 'fast', 'ts': ts_fast,
+            'log_states': False, 'log_return_copy': True,
+            'schema': {'pool': {'level': {'_default': arr(1, 2),
+                                          '_emit': True}},
+                       'tally': {'y': {'_default': 10, '_emit': True},
+                                 'z': {'_default': 2.5, '_emit': True},
+                                 'flag': {'_default': True,
+                                          '_updater': 'set',
+                                          '_emit': True}},
+                       # two variables declared with ONE default object
+                       'gauge': {'a': {'_default': shared_default,
+                                       '_emit': True},
+                                 'b': {'_default': shared_default,
+                                       '_emit': True}}},
+            'update': {'pool': {'level': {'$lit': arr(1, 1)}},
+                       'tally': {'y': {'_value': 0,
+                                       '_updater': 'accumulate'},
+                                 'z': {'_value': 0.0,
+                                       '_updater': 'accumulate'},
+                                 'flag': {'_value': False,
+                                          '_updater': 'set'}},
+                       'gauge': {'a': {'$lit': arr(5, 5)}}}}
+    parts = {'slow': slow, 'fast': fast}
+    topo = {'slow': {'pool': ('pool',), 'sink': ('sink',)},
+            'fast': {'pool': ('pool',), 'tally': ('tally',),
+                     'gauge': ('gauge',)}}
+    return {'processes': {k: parts[k] for k in order},
+            'topology': {k: topo[k] for k in order},
+            'script': list(script), 'family': 'V',
+            'v': (ts_slow, ts_fast, tuple(order))}
+
+
+def v_jobs(ctx):
+    jobs = []
+    scripts = [[('update', 4)], [('run_for', 1.5, False), ('update', 2.5)],
+               [('run_for', 2.5, True), ('update', 2)]]
+    for ts_slow, ts_fast in ((2, 1), (3, 1), (1.5, 1), (1, 1), (1, 2)):
+        for sc in scripts:
+            for order in (('slow', 'fast'), ('fast', 'slow')):
+                jobs.append(('V', ts_slow, ts_fast, sc, order))
+    return jobs
+
+
+def run_v(job, acc):
+    import numpy as np
+    _, ts_slow, ts_fast, script, order = job
+    spec = v_world(ts_slow, ts_fast, script, order)
+    ex = worlds.execute(spec, guard_factory=sched.lasso_guard)
+    acc.case(key=('V', ts_slow, ts_fast, script, order), outcome='V')
+    acc.validated += 1
+    case = {'family': 'V', 'job': job}
+    V = lambda rule, fp, msg: acc.violate(  # noqa
+        fw.violation(rule, fp, msg, case))
+    if ex.error:
+        V('C01.crash', sched.crash_fp(ex), f'unexpected {ex.error[2]!r}')
+        return
+    # ledger: (due time, returned update as it was when it was returned)
+    start, ledger = {}, []
+    for ev in ex.trace:
+        if ev[0] == 'poll':
+            start[ev[1]] = ev[7] if ev[7] is not None else ev[4]
+        elif ev[0] == 'invoke':
+            cur = (ev[1], start.get(ev[1], ev[4]) + ev[5])
+        elif ev[0] == 'return':
+            ledger.append((cur[1], ev[5]))
+    init = {('pool', 'level'): np.array([1., 2.]),
+            ('sink', 'total'): np.array([0., 0.]),
+            ('tally', 'y'): 10, ('tally', 'z'): 2.5,
+            ('gauge', 'a'): np.array([0., 0.]),
+            ('gauge', 'b'): np.array([0., 0.])}
+    for (T, data, snap) in worlds.history_rows(ex):
+        want = {k: (v.copy() if hasattr(v, 'copy') else v)
+                for k, v in init.items()}
+        flag = True
+        for due, upd in ledger:
+            if due > T:
+                continue
+            for port, body in upd.items():
+                for var, u in body.items():
+                    if (port, var) == ('tally', 'flag'):
+                        flag = u['_value']
+                        continue
+                    if isinstance(u, dict):
+                        u = u['_value']
+                    want[(port, var)] = want[(port, var)] + u
+        for (port, var), w in want.items():
+            got = snap.get(port, {}).get(var)
+            ok = np.array_equal(np.asarray(got), np.asarray(w)) \
+                if got is not None else False
+            if not ok:
+                V('C01.row', f'returned-update-form:{port}.{var}',
+                  f'V-world {job[1:]}: at t={T} {port}.{var} = '
+                  f'{np.asarray(got).tolist()}, but its initial value '
+                  f'plus the updates returned for intervals ending by '
+                  f'then is {np.asarray(w).tolist()}')
+                return
+        if snap.get('tally', {}).get('flag') is not flag:
+            V('C01.row', 'returned-update-form:tally.flag',
+              f'V-world {job[1:]}: at t={T} tally.flag = '
+              f'{snap.get("tally", {}).get("flag")!r}, the last set '
+              f'update due by then gives {flag!r}')
+            return
+
+
 def par_jobs(ctx):
     """S-family worlds re-run with every non-empty subset of processes
     marked _parallel (real worker processes), judged by rows only."""
@@ -297,6 +418,9 @@ def bfs_jobs(ctx):
 
 
 def run_job(job, acc):
+    if job[0] == 'V':
+        run_v(job, acc)
+        return
     if job[0] == 'M':
         run_mints(job, acc)
         return
@@ -317,7 +441,8 @@ def run_job(job, acc):
 def run(ctx):
     fw.preload_forkserver()
     acc = ctx.map(run_job, par_jobs(ctx), chunk=4)
-    ctx.map(run_job, kill_jobs(ctx) + mints_jobs(ctx), acc=acc)
+    ctx.map(run_job, kill_jobs(ctx) + mints_jobs(ctx) + v_jobs(ctx),
+            acc=acc)
     ctx.map(run_job, bfs_jobs(ctx), acc=acc, chunk=1)
     ctx.map(run_job, afamily.a_jobs(ctx), acc=acc, chunk=1)
     return ctx.map(run_job, s_jobs(ctx), acc=acc)
@@ -325,7 +450,11 @@ def run(ctx):
 
 def replay(case):
     acc = fw.Acc()
-    if case.get('family') == 'K':
+    if case.get('family') == 'V':
+        j = case['job']
+        run_v((j[0], j[1], j[2], [tuple(c) for c in j[3]], tuple(j[4])),
+              acc)
+    elif case.get('family') == 'K':
         run_kill(case['job'], acc)
     elif case.get('family') == 'M':
         run_mints(case['job'], acc)
@@ -340,3 +469,7 @@ def replay(case):
     else:
         afamily.replay(case, acc, MONITORS)
     return [v for exs in acc.viol_examples.values() for v in exs]
+
+
+RULE += (
+    ' V-family: two processes return updates in every FORM (explicit {_value, _updater} with falsy values, a state array passed through as the update while a faster process changes it, two variables declared with one default array object); every row equals the initial values plus the ledger of updates as they were when returned.')
